@@ -42,7 +42,8 @@ def echo(ids: List[int]) -> bool:
             node.assoc.state_is_active = True
             node.transport.events = [("busy", 1)]
         if P.get("backlog"):
-            S.SEND_BUFFER_MAXIMUM_SIZE = 100          # behaviour is parametric in the constant (assumption)
+            S.SEND_BUFFER_MAXIMUM_SIZE = len(build("app_req").dump()) + 8     # exactly one queued message fits per flush
+                                                                               # (behaviour is parametric in the constant)
             for i in range(P["backlog"]):
                 m = build("app_req")
                 m.header.hop_by_hop = 0x0b000000 + i
@@ -147,9 +148,9 @@ def queries(tier, seed):
     for role, start, seq in seqs:
         qs.append(Q(f"echo/{role}/{start}/{'-'.join(s.split('_')[0] for s in seq)}", "echo", {"role": role, "start": start, "seq": seq}, cto=t, pto=t,
                     what=f"{role} from {start}: back-to-back {seq}, all identifiers symbolic"))
-    for role, seq, n in ((("SERVER", ["dwr_ok", "dwr_ok"], 3),) if tier == "quick" else (("SERVER", ["dwr_ok", "dwr_ok"], 3), ("CLIENT", ["dwr_ok", "cer_ok", "dwr_ok"], 4))):
+    for role, seq, n in ((("SERVER", ["dwr_ok", "dwr_ok"], 6),) if tier == "quick" else (("SERVER", ["dwr_ok", "dwr_ok"], 6), ("CLIENT", ["dwr_ok", "cer_ok", "dwr_ok"], 8), ("SERVER", ["dwr_ok", "dwr_ok", "dwr_ok"], 12))):
         qs.append(Q(f"echo/{role}/backlog{n}/{'-'.join(s.split('_')[0] for s in seq)}", "echo", {"role": role, "start": "Open", "seq": seq, "backlog": n}, cto=t, pto=t,
-                    what=f"{role} Open with {n} queued outbound messages exceeding the send buffer (constant patched to 100): back-to-back {seq}"))
+                    what=f"{role} Open with {n} queued outbound messages exceeding the send buffer (send-buffer constant patched so that one message fits per flush): back-to-back {seq}"))
     qs.append(Q("reconnect", "reconnect", {}, cto=t, pto=t, what="CER/CEA, DPR/DPA, restart of the same node object, second CER: all identifiers symbolic"))
     return qs
 
@@ -158,4 +159,4 @@ BOUNDS = ["sequences of 1-3 base requests (CER, DWR, DPR) back-to-back in the in
           "outbound backlog; every Hop-by-Hop / End-to-End value (equal and distinct values arise as cases)", "states Closed (server) and Open, both roles; one reconnect"]
 OUTSIDE = ["identifiers of locally generated requests (dict keys, concrete)", "sequences longer than 3", "real sockets and timing (stand-in transport; the transport thread body runs "
            "between ticks and while the state machine sleeps / waits for write mode)"]
-ASSUMPTIONS = ["reference decoder", "SEND_BUFFER_MAXIMUM_SIZE patched to 100 in the backlog queries (behaviour is parametric in the constant)"]
+ASSUMPTIONS = ["reference decoder", "SEND_BUFFER_MAXIMUM_SIZE patched to one message + 8 bytes in the backlog queries (behaviour is parametric in the constant)"]
